@@ -17,7 +17,7 @@ pub enum Profile {
     All,
 }
 
-pub const KEYS: &[&str] = &["a", "b", "key", "x y", "é", "a\"b", "", "n1", "x1", "y_2"];
+pub const KEYS: &[&str] = &["a", "b", "key", "x y", "é", "a\"b", "", "n1", "x1", "y_2", "p_1", "q7"];
 pub const PATTERNS: &[&str] = &["^[a-c]+$", "^[0-9]{2,3}$", "^a", "b$", "^(ab|cd)*$", "^[^x]*$", "^x[0-9]?$", "[0-9]"];
 
 fn scalar_value() -> impl Strategy<Value = Value> {
@@ -181,10 +181,19 @@ fn object_schema(p: Profile, inner: BoxedStrategy<Value>) -> BoxedStrategy<Value
         3 => inner.clone().prop_map(Some),
     ];
     let extra_required = proptest::option::weighted(0.15, 0..KEYS.len());
+    // optional declared properties may be forbidden outright (`false`)
+    let props = (props, proptest::collection::vec(proptest::bool::weighted(0.08), 4)).prop_map(|(mut ps, forb)| {
+        for (i, p) in ps.iter_mut().enumerate() {
+            if forb[i % forb.len()] && !p.2 {
+                p.1 = json!(false);
+            }
+        }
+        ps
+    });
     let all_extras = match p {
         Profile::Full => Just((None, None, None)).boxed(),
         Profile::All => (
-            proptest::option::weighted(0.25, (0usize..2, inner.clone())),
+            proptest::option::weighted(0.3, (0usize..6, inner.clone())),
             proptest::option::weighted(0.2, 0u64..3),
             proptest::option::weighted(0.2, 0u64..3),
         )
@@ -224,8 +233,9 @@ fn object_schema(p: Profile, inner: BoxedStrategy<Value>) -> BoxedStrategy<Value
                 m.insert("required".into(), Value::Array(req.clone()));
             }
             if let Some((which, s)) = patp {
-                // two disjoint patterns; keys of `properties` never match them
-                let pat = ["^p_", "^q[0-9]$"][which];
+                // patterns may match declared names (x1, "x y", a, a"b, p_1, q7, y_2): such a member must
+                // satisfy both its own schema and the pattern's
+                let pat = ["^p_", "^q[0-9]$", "^x", "^a", "_2$", "^[a-b]"][which];
                 m.insert("patternProperties".into(), json!({ pat: s }));
             }
             if let Some(a) = addl {
